@@ -820,6 +820,7 @@ func fireSlot(ctx context.Context, e *env, ct *mocks.ChainTime, sched *mocks.Rec
 		fo.MsgJob = &tm
 		ct.SetSlot(f.Slot)
 		sched.Fire(ctx, jobName(1, f.Slot))
+		synctest.Wait() // the aggregation time is seconds away: whatever the job started has settled by then
 		if e.rootCall != nil {
 			fo.RootCall = &rootCallObs{Accts: e.rootCall.accts, Epoch: e.rootCall.epoch, Root: e.rootCall.root}
 		}
@@ -867,6 +868,9 @@ func fireSlot(ctx context.Context, e *env, ct *mocks.ChainTime, sched *mocks.Rec
 		synctest.Wait()
 	} else {
 		prepared = sched.Fire(ctx, jobName(0, f.Slot))
+		// a signer that answers at once: the message time is more than a slot away, and whatever the
+		// prepare job started has settled by then
+		synctest.Wait()
 	}
 	var msgJob *mocks.Job
 	if prepared {
